@@ -143,7 +143,7 @@ for _v in KEY_TO_FEATS.values():
 
 KEY_CATS = ([["med", "T", "visc", "vm", "lut"]] * 3
             + [["px", "px", "px", "flow", "width", "region"]] * 4
-            + [["fr"]] * 3 + [["uk", "um"]] * 2 + [CT] * 4)
+            + [["fr"]] * 3 + [["uk", "um"]] * 2 + [CT] * 6)
 
 
 def _vidx(draw, key):
@@ -166,7 +166,7 @@ def st_op(draw):
     if kind in ("set", "del"):
         key = draw(st.sampled_from(draw(st.sampled_from(KEY_CATS))))
         then = None
-        if draw(st.integers(0, 9)) < 6:
+        if draw(st.integers(0, 9)) < (9 if key in CT else 6):
             then = draw(st.sampled_from(KEY_TO_FEATS[key]))
         if kind == "set":
             return ["set", key, _vidx(draw, key), then]
@@ -199,8 +199,8 @@ def st_spec(draw):
     present |= {"A": {"med", "vm"}, "B": {"visc"}, "C": {"med", "T", "vm"},
                 "Bother": {"med", "visc"}, "BotherT": {"med", "visc", "T", "vm"}}[scen]
     # two-channel measurements are common: one fluorescence channel not recorded
-    fl_absent = draw(st.sampled_from([[], [], [], ["fl3_max"], ["fl3_max"], ["fl2_max"],
-                                      ["fl1_max"], ["fl2_max", "fl3_max"]]))
+    fl_absent = draw(st.sampled_from([[], [], ["fl3_max"], ["fl3_max"], ["fl3_max"],
+                                      ["fl2_max"], ["fl1_max"], ["fl2_max", "fl3_max"]]))
     if len(fl_absent) == 1:
         # ... while the analysis pipeline defines the full matrix
         ct0 = draw(st.sampled_from([CT, CT, CT, CT, ["ct12", "ct21", "ct13", "ct31"],
